@@ -466,7 +466,7 @@ def run(ctx: Ctx) -> None:
     ctx.add_tlc(r)
     if r["violated"]:
         ctx.notes.append(f"Interaction.tla (code) violates {r['violated']}")
-    zero = [a for a in (r.get("coverage_zero") or []) if a in ("Pick", "TakeSource", "ApplyCutoff", "ApplyMask", "Step", "Advance")]
+    zero = [a for a in (r.get("coverage_zero") or []) if a in ("Pick", "TakeSource", "ApplyCutoff", "ApplyMask", "Step", "Advance", "NextTrajectory")]
     if zero:
         ctx.notes.append(f"actions never taken: {zero}")
     model: dict[str, dict] = {}
@@ -486,7 +486,7 @@ def run(ctx: Ctx) -> None:
             raise MachineryError(f"python twin of ExpFull / ExpMasked disagrees with TLC on {m['sc']}")
     ctx.log(f"TLC code N=3: {r['distinct']} states, {len(model)} scenarios, violated={r['violated']}")
     mutants = {}
-    for v in ("cut_le", "slm_le", "rows"):
+    for v in ("cut_le", "slm_le", "rows", "cache_first"):
         rm = run_tlc("MCInteraction", None, workdir=ctx.work, name=f"mutant_{v}", workers=WORKERS, cfg_text=cfg_text(3, "cScn", v, False))
         ctx.add_tlc(rm)
         mutants[v] = [x[1] for x in rm["violated"]]
